@@ -346,8 +346,10 @@ pub fn c18(a: &Analysis, v: &mut Verdict) {
         }
     }
     let (omin, omax) = (*offs.iter().min().unwrap(), *offs.iter().max().unwrap());
-    let win_lo = (sim::UNIX_BASE as i64 + omin + t_first as i64) as u64;
-    let win_hi = (sim::UNIX_BASE as i64 + omax + t_last as i64) as u64;
+    // an anchor reads the wall clock and the monotonic clock one after the other (up to 500 ns
+    // apart on the simulated clock): that much slack on both sides
+    let win_lo = (sim::UNIX_BASE as i64 + omin + t_first as i64) as u64 - 1_000;
+    let win_hi = (sim::UNIX_BASE as i64 + omax + t_last as i64) as u64 + 1_000;
     let mut reads_cache: HashMap<usize, Vec<u64>> = HashMap::new();
     let mut reads = |o: usize| -> Vec<u64> { reads_cache.entry(o).or_insert_with(|| reads_of_op(a, o)).clone() };
     let mut checked = 0u64;
@@ -603,4 +605,96 @@ pub fn c13(a: &Analysis, v: &mut Verdict, prop: &str) {
     let dropped_before = a.case.ops.iter().filter(|r| matches!(r.op, Op::DropTask { .. })).count() as u64;
     v.probe("task_dropped", dropped_before);
     v.trigger = cycle_inside_final > 0 || migrated > 0;
+}
+
+// ---------------------------------------------------------------------------------------------
+// C07: tracing calls never panic, block or deadlock the host
+// (deadlocks and step-cap livelocks are reported by `evaluate` before any oracle runs; process
+// aborts are attributed by the driver)
+
+pub fn c07(a: &Analysis, v: &mut Verdict) {
+    let log = &a.hist.out.log;
+    let mut reentrant = 0u64;
+    for (o, out) in a.hist.ops.iter().enumerate() {
+        if !out.executed {
+            continue;
+        }
+        if !a.case.ops[o].inner.is_empty() && !matches!(a.case.ops[o].op, Op::Poll { .. }) {
+            reentrant += 1;
+        }
+        if let Some(msg) = &out.panic {
+            if msg.starts_with("harness:") {
+                continue;
+            }
+            let kind = op_kind(a, o);
+            let class = if msg.contains("already borrowed") || msg.contains("already mutably borrowed") {
+                "reentrant-borrow"
+            } else if msg.contains("index out of bounds") {
+                "index-out-of-bounds"
+            } else if msg.contains("unwrap") {
+                "unwrap"
+            } else {
+                "panic"
+            };
+            v.add(
+                "C07",
+                "C07.panic",
+                format!("{}:{}", kind, class),
+                format!("public tracing call panicked in op {}{}: {}", a.describe_op(o), if a.case.ops[o].inner.is_empty() { "" } else { " (with re-entrant calls in its closure)" }, msg.chars().take(160).collect::<String>()),
+            );
+        }
+    }
+    for p in &a.hist.teardown_panics {
+        v.add("C07", "C07.teardown", "panic-in-teardown".into(), format!("a tracing call made while the thread's local storage was being torn down panicked: {}", p.chars().take(160).collect::<String>()));
+    }
+    // no call other than flush() waits for the collector
+    for (i, e) in log.iter().enumerate() {
+        if e.kind != sim::K_LOCK_WAIT && e.kind != sim::K_JOIN_WAIT {
+            continue;
+        }
+        let o = a.ev_op[i];
+        if o == usize::MAX {
+            continue;
+        }
+        let tid = e.tid as usize;
+        if a.hist.ops[o].tid != tid {
+            continue; // a helper thread (flush helper) waiting, not the caller
+        }
+        let exempt = matches!(
+            a.case.ops[o].op,
+            Op::Flush | Op::Cycle | Op::Stats | Op::Join { .. } | Op::Spawn { .. } | Op::SetReporter { .. } | Op::ThreadEnd
+        );
+        if exempt {
+            continue;
+        }
+        if e.kind == sim::K_LOCK_WAIT {
+            // the thread's very first command registers its queue under the receiver-list lock:
+            // a hand-over wait behind a drain in progress, not waiting for a cycle
+            let registers = a.events_of_op(o).any(|(_, x)| x.kind == fastrace::verif::P_REGISTER && x.tid as usize == tid);
+            if registers {
+                v.probe("first_call_lock_handover", 1);
+                continue;
+            }
+        }
+        v.add(
+            "C07",
+            "C07.block",
+            format!("{}:{}", op_kind(a, o), if e.kind == sim::K_LOCK_WAIT { "lock" } else { "join" }),
+            format!("op {} had to wait for {} held by the collector side", a.describe_op(o), if e.kind == sim::K_LOCK_WAIT { "a lock" } else { "a thread" }),
+        );
+    }
+    let teardown = a.case.ops.iter().filter(|r| matches!(r.op, Op::TeardownCalls { .. })).count() as u64;
+    let empty_parents = a
+        .case
+        .ops
+        .iter()
+        .filter(|r| matches!(&r.op, Op::Child { multi: true, parents, .. } if parents.is_empty() || parents.iter().all(|p| matches!(a.model.slot_ref(*p), SlotM::Gone | SlotM::Empty))))
+        .count() as u64;
+    v.probe("reentrant_closures", reentrant);
+    v.probe("tls_teardown_call", teardown);
+    v.probe("empty_token_ctx_probe", a.model.empty_token_ctx.len() as u64);
+    v.probe("scope_limit_hit", a.model.scope_limit_hits as u64);
+    v.probe("stack_limit_hit", a.model.stack_limit_hits as u64);
+    let _ = empty_parents;
+    v.trigger = reentrant > 0 || teardown > 0 || !a.model.empty_token_ctx.is_empty() || a.any_full;
 }
